@@ -15,13 +15,16 @@ import time
 
 ROOT = os.path.dirname(os.path.dirname(os.path.abspath(__file__)))
 PY = os.path.join(ROOT, '.venv', 'bin', 'python')
-EVID = os.path.join(ROOT, 'evidence')
+EVID = os.environ.get('VKOPF_EVIDENCE_DIR') or os.path.join(ROOT, 'evidence')   # (redirected only by development runs)
 REPLAYS = os.path.join(EVID, 'replays')
 KNOWN = os.path.join(ROOT, 'known_findings.json')
 
 
 def _run_worker(spec, wall_cap):
-    env = dict(os.environ, PYTHONPATH=ROOT, PYTHONHASHSEED='0', PYTHONWARNINGS='ignore')
+    # VKOPF_REPO (development aid only): analyse another checkout of kopf instead of /repo, e.g. a scratch worktree
+    # carrying a seeded change; the registered commands never set it.
+    alt = os.environ.get('VKOPF_REPO')
+    env = dict(os.environ, PYTHONPATH=(alt + os.pathsep + ROOT) if alt else ROOT, PYTHONHASHSEED='0', PYTHONWARNINGS='ignore')
     t0 = time.time()
     try:
         p = subprocess.run([PY, '-m', 'vkopf.worker', json.dumps(spec)], cwd=ROOT, env=env,
@@ -94,7 +97,7 @@ def run_property(pid, tier, jobs=None, only=None):
         entry = {'obligation': label, 'kind': kind, 'engine': o.engine, 'status': st, 'paths': res.get('harness_calls', res.get('paths', 0)),
                  'nontrivial_paths': res.get('nontrivial_paths', 0), 'tags': res.get('tags', {}),
                  'queries': res.get('queries', 0), 'solver_s': res.get('solver_s', 0.0),
-                 'realizations': res.get('realizations', 0), 'wall_s': res.get('wall_s', 0)}
+                 'realizations': res.get('realizations', 0), 'wall_s': res.get('wall_s', 0), 'cpu_s': res.get('cpu_s', 0)}
         if kind == 'twin':
             # vacuity twin: the negated oracle at the witnessed branch MUST be refuted
             entry['expected'] = 'counterexample'
@@ -208,7 +211,7 @@ def _replay(spec, res):
 def _write_replay(pid, o, spec, res, rep):
     key = hashlib.sha256(json.dumps([o.fn, o.cell, res.get('args')], sort_keys=True, default=repr).encode()).hexdigest()[:10]
     rel = os.path.join('evidence', 'replays', f'{pid}-{o.fn}-{key}.json')
-    with open(os.path.join(ROOT, rel), 'w') as f:
+    with open(os.path.join(REPLAYS, os.path.basename(rel)), 'w') as f:
         json.dump({'property': pid, 'module': spec['module'], 'fn': o.fn, 'cell': o.cell, 'args': res.get('args'),
                    'engine': o.engine, 'crosshair_message': res.get('message'), 'replay': rep}, f, indent=1, default=repr)
     return rel
